@@ -48,6 +48,11 @@ def matches(got, ref, arg):
 
 def run(ctx):
     from oslo_utils import encodeutils, strutils
+    from vf import purity
+    _rec = purity.Recorder(encodeutils, ['safe_encode', 'safe_decode', 'to_utf8'], every=1)
+    _rec2 = purity.Recorder(strutils, ['to_slug'], every=3)
+    _rec.__enter__()
+    _rec2.__enter__()
     quick = ctx.quick
     ctx.assumptions += [
         'UTF-8, UTF-16 (BOM, little endian), Latin-1 and ASCII are specified in TLA+ and compared byte for byte; for '
@@ -184,6 +189,10 @@ def run(ctx):
             ctx.violation({'kind': 'to_slug-type'}, {'argument': repr(bad)}, 'to_slug(%r) should raise TypeError' % (bad,))
     if outcome(strutils.to_slug, 'Caf\xe9 Fran\xe7ais'.encode('latin-1'), incoming='latin-1') != ('ok', 'cafe-francais'):
         ctx.violation({'kind': 'to_slug-bytes'}, {}, 'to_slug on latin-1 bytes')
+    _rec.__exit__()
+    _rec2.__exit__()
+    _rec.replay(ctx, 'codecs')
+    _rec2.replay(ctx, 'slug')
     # binding self-test
     if matches(('ok', b'A'), {'k': 'bytes', 'v': [66], 'e': 'none'}, None):
         raise MachineryError('binding self-test failed')
